@@ -27,7 +27,7 @@ def correspondence(ctx):
         for s in labels:
             cases.append(f'allows.custom|PValid|{assign}|{hexs(s)}')
     # the two standard classes: representatives of every derived-property value and of every rule
-    std = [0x61, 0x20, 0xAD, 0x378, 0x2460, 0x65E5, 0x20000] + CTX
+    std = [0x61, 0x20, 0xAD, 0x378, 0x2460, 0x65E5, 0x20000, 0x7F, 0x7E, 0x21, 0x1F, 0xDF, 0x640] + CTX
     for s in all_strings(std[:7] + [0x200D, 0x94D, 0xB7, 0x6C, 0x660, 0x6F0], 3, 0):
         h = hexs(s)
         cases.append(f'allows.id|{h}')
